@@ -73,10 +73,15 @@ CLAIMED = {
             '(implementation), model on isolate(tree, k) = implementation on the k-th blanked file, reordering of items', '7 C19',
             'Coq proof (per-detector composition over the list of top-level parts, name-table locality under no_cross_mentions) + '
             'blank-out / reorder correspondence on assembled multi-item files'),
+    'C17': ('detectors_equivariant / relayout_lines: all 30 detector models flag, in the tree with locations renamed by any injective '
+            'map, exactly the renamed constructs, and the reported lines are the lines of those constructs in the new text; '
+            'string_contents_irrelevant: same-length rewriting of string-literal contents changes no result; comments are not part of '
+            'the tree; the parser relation parse(s2) = rename(parse(s1)) for token-preserving re-layouts is sampled on every generated '
+            'pair (partial), the known finding D14 (comment inside a pragma) excluded; tie: re-layout pairs through the implementation', '7 C17',
+            'Coq proof (equivariance of every detector under location renaming by induction over the tree type, string-literal blindness, '
+            'line lemma) + re-layout / re-commenting correspondence on the implementation; parser part sampled'),
 }
 NOT_YET = {
-    'C17': 'check not built yet in this round: the model part (location equivariance of all detectors, string-content irrelevance) and the '
-           're-layout correspondence are in progress; the technique applies (DESIGN.md section 7 C17)',
 }
 
 
